@@ -20,6 +20,14 @@
    best symbol of every frame is unique - a tie may be broken differently after round-off), 5 the confident-line test gives the
    same answer for the shifted logits at thresholds strictly between attainable values, 6 it is monotone in the threshold,
    7 one-hot posteriors give 1 within 1e-9, 8 the bag confidence equals the largest normalised posterior within 1e-9.
+   kind = "hist" (HISTORY): the confidences of the design module are functions of the current matrix only (no variable of
+   Confidence remembers an earlier matrix), so a line that is handed new logits must answer for the new logits.  ONE long-lived
+   page / line / PageDecoder set of the real code goes through  w + constants -> steps[1].w -> (a call that may fail) ->
+   w + other constants -> steps[2].w (one-hot, spelling the transcription)  by assignment to line.logits; the "line" fields hold
+   the answers after the first and the third assignment (so clauses 4 / 5 compare two uses of the SAME object), steps[k] the
+   answers after the second and the fourth together with the weight matrix assigned there: TLC decides from that matrix whether
+   the step is one-hot (JudgeStep).  kind = "alto" carries "hsteps": other exports of the same long-lived page with other
+   logits assigned to its line (labw = label weights over dd; all = dd means one-hot), each judged by range / one-hot => 1.
    With Strict = TRUE the values are also compared with the exact rationals of the design module (clauses 11..15, tolerance 2e-6):
    a mismatch there alone is MODEL-DRIFT, not a violation.                                                                 *)
 EXTENDS Confidence, TraceKit
@@ -56,6 +64,31 @@ JudgeLine ==
     ELSE IF \E k \in KS : Odd(k) /\ Tr.lce[k + 1] # Confident(Thr(k)) THEN 14
     ELSE 0
 
+\* kind = "hist": a step of the history = the answers of the long-lived objects after the matrix s.w was assigned to the line
+\* (same fields and units as a "line" trace; upd = transcription_confidence set by PageParser.update_confidences is part of
+\* over / one_cmp; lce is asked on line.get_full_logprobs(), sys through the long-lived PageDecoders, thresholds as above)
+StepW(s) == [f \in 1..T |-> [c \in Syms |-> s.w[f][c + 1]]]
+JudgeStep(s) ==
+    IF s.outcome # "ok" THEN 1
+    ELSE IF s.over > TOL THEN 2
+    ELSE IF \E k \in 1..(2 * D) : s.lce[k + 1] /\ ~s.lce[k] THEN 6
+    ELSE IF \E j \in 1..Len(s.lce_neg) : s.lce[1] /\ ~s.lce_neg[j] THEN 6
+    ELSE IF \E j \in 1..(Len(s.sys) - 1) : s.sys[j + 1] /\ ~s.sys[j] THEN 6
+    \* one-hot posteriors: every frame-wise confidence is 1 and the line passes the test for every threshold below 1
+    \* (lce: thresholds 0 .. (2D-1)/(2D); sys: -1, -0.001, 0 .. (2D-1)/(2D) = all entries but the last)
+    ELSE IF OneHot(StepW(s)) /\ (s.one_cmp > TOL \/ (\E k \in 0..(2 * D - 1) : ~s.lce[k + 1])
+                                               \/ (\E j \in 1..(Len(s.sys) - 1) : ~s.sys[j])) THEN 7
+    ELSE IF OneHotForOf(StepW(s), labels, al) /\ s.one > TOL THEN 7
+    ELSE 0
+\* steps 1 and 3 (the same object, logits differing by a constant per frame) are a "line" observation: all clauses of JudgeLine;
+\* a property-level clause of a step takes precedence over the exact-value (drift) clauses 11..14 of JudgeLine
+JudgeHist ==
+    LET j == JudgeLine
+        bad == {k \in 1..Len(Tr.steps) : JudgeStep(Tr.steps[k]) # 0}
+    IN  IF j \in 1..9 THEN j
+        ELSE IF bad # {} THEN JudgeStep(Tr.steps[CHOOSE k \in bad : \A o \in bad : k <= o])
+        ELSE j
+
 NH == Len(Tr.v)
 BagPost(i) == Posterior(Tr.v, Tr.lm, Tr.scale, i)
 JudgeBag ==
@@ -75,10 +108,15 @@ JudgeBag ==
 \* PageLayout.to_altoxml_string(); nums[i] = max(0, a_i - b_i); words = <<first, last>> character index of each word;
 \* wc = the WC attributes, lconf = line.transcription_confidence (millionths); over / one as above; onehot = all a_i = dd
 SubSeqOf(s, lo, hi) == [i \in 1..(hi - lo + 1) |-> s[lo + i - 1]]
+AllDD(lw) == \A i \in 1..Len(lw) : lw[i] = Tr.dd
 JudgeAlto ==
     IF Tr.outcome # "ok" THEN 1
     ELSE IF Tr.over > TOL THEN 2
     ELSE IF Tr.onehot /\ Tr.one > TOL THEN 7
+    \* the other exports of the same long-lived page (history): each is judged on the logits its line carried at that export
+    ELSE IF \E j \in 1..Len(Tr.hsteps) : Tr.hsteps[j].outcome # "ok" THEN 1
+    ELSE IF \E j \in 1..Len(Tr.hsteps) : Tr.hsteps[j].over > TOL THEN 2
+    ELSE IF \E j \in 1..Len(Tr.hsteps) : AllDD(Tr.hsteps[j].labw) /\ Tr.hsteps[j].one > TOL THEN 7
     ELSE IF ~Strict THEN 0
     ELSE IF ~Near(Tr.lconf * 2 * Tr.dd, Med2(Tr.nums) * 1000000, 2 * Tr.dd * TOL6) THEN 16
     ELSE IF Len(Tr.wc) # Len(Tr.words) THEN 16
@@ -92,7 +130,7 @@ JudgeAlto ==
 \* update_confidences report for it (millionths), over = excursion outside [0, 1] in 1e-12
 JudgeEmpty == IF Tr.outcome # "ok" THEN 1 ELSE IF Tr.over > TOL THEN 2 ELSE 0
 
-IsLine == Traces[tid].kind = "line"
+IsLine == Traces[tid].kind \in {"line", "hist"}
 TInit == /\ tid \in 1..NTraces
          /\ w = IF IsLine THEN [f \in 1..T |-> [s \in Syms |-> Traces[tid].w[f][s + 1]]] ELSE [f \in 1..T |-> [s \in Syms |-> 1]]
          /\ den = [f \in 1..T |-> RowSum(w[f])]
@@ -100,7 +138,7 @@ TInit == /\ tid \in 1..NTraces
          /\ labels = IF IsLine THEN Traces[tid].labels ELSE <<0>>
          /\ al = IF IsLine THEN Traces[tid].al ELSE <<1>>
          /\ shifted = 0
-         /\ verdict = IF IsLine THEN JudgeLine ELSE IF Traces[tid].kind = "alto" THEN JudgeAlto
+         /\ verdict = IF Traces[tid].kind = "line" THEN JudgeLine ELSE IF Traces[tid].kind = "hist" THEN JudgeHist ELSE IF Traces[tid].kind = "alto" THEN JudgeAlto
                      ELSE IF Traces[tid].kind = "empty" THEN JudgeEmpty ELSE JudgeBag
 
 TNext == UNCHANGED <<vars, tid, verdict>>
